@@ -22,14 +22,14 @@ type ExploreCfg struct {
 
 // ExploreStats reports what was covered.
 type ExploreStats struct {
-	Execs       int64
-	Steps       int64
-	ChoicePts   int64
-	MaxDevSeen  int
-	Capped      string // non-empty: which cap was hit
-	Diverged    string
-	BoundDone   int
-	Violations  int64
+	Execs      int64
+	Steps      int64
+	ChoicePts  int64
+	MaxDevSeen int
+	Capped     string // non-empty: which cap was hit
+	Diverged   string
+	BoundDone  int
+	Violations int64
 }
 
 type explorer struct {
